@@ -363,7 +363,8 @@ pub struct ReadmeDoctests;
 
 /// Lex PRQL source into Lexer Representation.
 pub fn prql_to_tokens(prql: &str) -> Result<lr::Tokens, ErrorMessages> {
-    prqlc_parser::lexer::lex_source(prql).map_err(|e| {
+    prqlc_parser::lexer::lex_source(prql).map_err(|mut e| {
+        parser::lexer_spans_to_bytes(prql, &mut e);
         e.into_iter()
             .map(|e| e.into())
             .collect::<Vec<ErrorMessage>>()
